@@ -174,6 +174,12 @@ def check(case):
     for j in range(folds):
         inter = T[j] & R[j]
         require(not inter, "trained-on-held-out", f"model {j + 1} was trained on {len(inter)} PSMs it later scored, e.g. {sorted(inter)[:3]}")
+        srids = getattr(getattr(r["models"][j], "scaler", None), "train_rids_", None)
+        if srids is not None:
+            # the feature scaler belongs to the fold's model: the one that scales fold j's held-out PSMs was fitted without them
+            sinter = {int(x) for x in srids} & R[j]
+            require(not sinter, "scaler-fitted-on-held-out",
+                    f"the scaler of model {j + 1} was fitted on {len(sinter)} PSMs that this model scored, e.g. {sorted(sinter)[:3]}")
         tkeys = {key_of[rr] for rr in T[j]}
         leak = [rr for rr in R[j] if key_of[rr] in tkeys]
         require(not leak, "spectrum-leak", f"model {j + 1} saw the spectrum of {len(leak)} PSMs it scored")
